@@ -244,6 +244,13 @@ class PathCtx:
         if prefer:
             if self.ex.solver.check(z3.Not(claim), *prefer) == z3.sat:
                 return False, self.ex.solver.model()
+            # not all preferences can hold on this path: keep as many as possible (greedily, in order)
+            kept = []
+            for p in prefer:
+                if self.ex.solver.check(z3.Not(claim), *(kept + [p])) == z3.sat:
+                    kept.append(p)
+            if self.ex.solver.check(z3.Not(claim), *kept) == z3.sat:
+                return False, self.ex.solver.model()
             self.ex.check(z3.Not(claim))
         return False, self.ex.solver.model()
 
@@ -344,7 +351,8 @@ class Interp:
         bb = "bb0"
         while True:
             blk = fn.blocks[bb]
-            for s in blk["stmts"]:
+            for si, s in enumerate(blk["stmts"]):
+                fr.cur = (bb, si)
                 self.steps += 1
                 if self.steps > self.max_steps:
                     raise Unsupported("step budget exhausted (unbounded loop?)")
@@ -354,6 +362,8 @@ class Interp:
                     if " [in " not in str(e):
                         raise Unsupported(f"{e} [in {name} {bb}: {s[:120]}]")
                     raise
+                except (IndexError, AttributeError, TypeError) as e:
+                    raise Unsupported(f"interpreter error {type(e).__name__}: {e} [in {name} {bb}: {s[:160]}]")
             t = parse_term(blk["term"])
             k = t[0]
             if k == "goto":
@@ -390,6 +400,69 @@ class Interp:
             else:
                 raise Unsupported(f"terminator {t}")
 
+    def complete_captures(self, fr, clos, listed):
+        """rustc's MIR printer zips a closure's captured places with the *variables* it mentions, so a closure
+        that captures two disjoint fields of one variable (`self.a`, `self.b`) is printed with only the first
+        capture. The missing ones are the temporaries assigned right after the last listed one in the same
+        block; they are only accepted when their declared types equal the field types the closure body uses."""
+        try:
+            body = self.get_fn(self.closure_fn(clos))
+        except Unsupported:
+            return
+        want = {}
+        for blk in body.blocks.values():
+            for s in blk["stmts"] + [blk["term"]]:
+                for m in re.finditer(r"\(\(\*_1\)\.(\d+): ([^()]+?)\)|\(_1\.(\d+): ([^()]+?)\)", s):
+                    k = int(m.group(1) if m.group(1) is not None else m.group(3))
+                    want[k] = (m.group(2) if m.group(1) is not None else m.group(4)).strip()
+        for m in re.finditer(r"\(\(\*_1\)\.(\d+): ([^()]+?)\)|\(_1\.(\d+): ([^()]+?)\)", body.header):
+            k = int(m.group(1) if m.group(1) is not None else m.group(3))
+            want[k] = (m.group(2) if m.group(1) is not None else m.group(4)).strip()
+        need = (max(want) + 1) if want else 0
+        if need <= len(clos.fields):
+            return
+        bb, idx = fr.cur
+        stmts = fr.fn.blocks[bb]["stmts"]
+        last = None
+        if listed:
+            lm = re.findall(r"_\d+", str(listed[-1][1]))
+            last = lm[0] if len(lm) == 1 else None
+        start = 0
+        if last is not None:
+            for j in range(idx - 1, -1, -1):
+                if stmts[j].startswith(last + " = "):
+                    start = j + 1
+                    break
+            else:
+                raise Unsupported(f"closure capture list of {clos.name} is truncated in the MIR dump and cannot be completed")
+        k = len(clos.fields)
+        for j in range(start, idx):
+            am = re.match(r"^(_\d+) = ", stmts[j])
+            if not am or k >= need:
+                break
+            loc = am.group(1)
+            ty = fr.fn.locals.get(loc)
+            if k in want and ty is not None and ty.replace("'_ ", "").strip() != want[k].replace("'_ ", "").strip():
+                raise Unsupported(f"closure capture {k} of {clos.name}: type {ty} does not match {want[k]}")
+            clos.fields.append(fr.cell(loc).v)
+            k += 1
+        def norm_ty(t):
+            return re.sub(r"\b(?:\w+::)+", "", t.replace("'_ ", "")).strip()
+        while k < need:
+            # a captured parameter / earlier local: accepted only when exactly one local of the creating function
+            # has the type the closure body expects for this capture
+            if k not in want:
+                break
+            same = [loc for loc, ty in list(fr.fn.params) + list(fr.fn.locals.items())
+                    if ty is not None and norm_ty(ty) == norm_ty(want[k])]
+            same = sorted(set(same))
+            if len(same) != 1 or fr.cells.get(same[0]) is None:
+                break
+            clos.fields.append(fr.cell(same[0]).v)
+            k += 1
+        if k < need:
+            raise Unsupported(f"closure capture list of {clos.name} is truncated in the MIR dump ({k} of {need} captures found)")
+
     def switch(self, v, targets):
         if isinstance(v, Int):
             term = v.t
@@ -413,6 +486,8 @@ class Interp:
     # ---- call dispatch
     def dispatch(self, callee, args):
         callee = callee.strip()
+        # items of another harper crate are printed with their full path: `harper_core::Span::with_len`
+        callee = re.sub(r"\bharper_(?:core|comments)::(?:[a-z_0-9]+::)*(?=[A-Z])", "", callee)
         for pat, target in self.resolve_map.items():
             if re.search(pat, callee):
                 if callable(target):
@@ -553,6 +628,9 @@ class Interp:
     # ---- statements
     def exec_stmt(self, fr, s):
         lhs, rv = parse_stmt(s)
+        self.lhs_type = None
+        if lhs[0] == "local":
+            self.lhs_type = fr.fn.locals.get(lhs[1]) or (fr.fn.ret if lhs[1] == "_0" else None)
         val = self.rvalue(fr, rv)
         self.place(fr, lhs).set(val)
 
@@ -678,6 +756,9 @@ class Interp:
             suffix = f"::{pm.group(2)}::promoted[{pm.group(3)}]"
             cands = [n for n in self.raw if n.endswith(suffix) or n == suffix[2:]]
             ty = pm.group(1).split("::")[-1]
+            am = re.fullmatch(r"<(.+) as (.+)>", pm.group(1))
+            if am:
+                ty = re.sub(r"<.*>", "", am.group(1)).split("::")[-1]
             if len(cands) > 1:
                 cands = [n for n in cands if self.impl_type(n) == ty] or cands
             if len(cands) == 1:
@@ -694,6 +775,12 @@ class Interp:
             vs = self.enums.get(en)
             if vs and var in vs:
                 return Enum(var, vs.index(var), fields)
+        if len(segs) == 1 and getattr(self, "lhs_type", None):
+            # a bare variant name assigned to a local whose declared type names the enum
+            en = re.sub(r"<.*>", "", self.lhs_type).split("::")[-1].strip()
+            vs = self.enums.get(en)
+            if vs and segs[0] in vs:
+                return Enum(segs[0], vs.index(segs[0]), fields)
         if len(segs) == 1:
             # a bare variant name (MIR of a crate that imported the enum's variants): unique across the known enums?
             owners = [en for en, vs in self.enums.items() if vs and segs[0] in vs and en not in ("Option", "Result")]
@@ -702,6 +789,8 @@ class Interp:
                 return Enum(segs[0], vs.index(segs[0]), fields)
         if segs and segs[-1] in ("Some", "None"):
             return Enum(segs[-1], 1 if segs[-1] == "Some" else 0, fields)
+        if len(segs) >= 2 and segs[-2] == "Cow" and segs[-1] in ("Borrowed", "Owned"):
+            return Enum(segs[-1], 0 if segs[-1] == "Borrowed" else 1, fields)
         if segs and segs[-1] in ("Ok", "Err"):
             return Enum(segs[-1], 0 if segs[-1] == "Ok" else 1, fields)
         if segs and segs[-1][:1].isupper() and fields:
@@ -747,6 +836,7 @@ class Interp:
             a = Adt(rv[1], [self.operand(fr, o) for _, o in rv[2]])
             if rv[1].startswith("{closure@"):
                 a.origin = fr.fn.name
+                self.complete_captures(fr, a, rv[2])
             return a
         if k == "variant":
             name = rv[1]
